@@ -168,8 +168,9 @@ Definition map_domain (m : string) (d : domain) : res domain :=
                 match l with
                 | [] => Ok acc
                 | e :: r =>
-                    (* Interface(e.name, mapping(e.minus), mapping(e.plus)) : ornt = None *)
-                    do i <- bjoin (map_face m (i_minus e)) (map_face m (i_plus e)) ONone;
+                    (* Interface(e.name, mapping(e.minus), mapping(e.plus), ornt=e.ornt)
+                       (before /repo's "fix: MappedDomain keeps the orientation" the orientation was not passed on) *)
+                    do i <- bjoin (map_face m (i_minus e)) (map_face m (i_plus e)) (i_ornt e);
                     go r (dict_set (mkIface (i_name e) (i_minus i) (i_plus i) (i_ornt i)) acc)
                 end) (interfaces d) [];
   Ok (mkDomain (m +++ "(" +++ d_name d +++ ")") (d_dim d) ints bnd conn (MSingle m) (Some d)).
